@@ -45,6 +45,9 @@ def addrBlacklisted (bl : List String) (recv : String) : Bool := bl.any (fun b =
 def gateOK (kind : String) (ok : Bool) (paused : Bool) (bl : List String) (peggy : List String) (recv symbol : String) : Bool :=
   !ok || (!paused && !addrBlacklisted bl recv && (if kind = "lock" then !peggy.contains symbol else peggy.contains symbol))
 
+/-- after an accepted `MsgSetBlacklist`, every address of the message is blacklisted (some stored entry denotes it) -/
+def blSetOK (requested stored : List String) : Bool := requested.all (addrBlacklisted stored)
+
 def sumOf (l : List (String × Nat)) (d : String) : Nat := ((l.filter (fun e => e.1 == d)).map (·.2)).sum
 
 /-- supply equation for one denomination: supply + locks + burns = genesis + approved credits -/
